@@ -200,9 +200,23 @@ def gen_comm_case(rng):
     pool = boundary_comms(rng, vals)
     comms = rng.sample(pool, min(len(pool), rng.choice([0, 1, 1, 2, 3, 5])))
     opt = rng.choice([0, 0, 1, 2])
+    directed = rng.random() < 0.12
+    if directed:
+        # directed: several patterns of ONE AS in one set (a finite set of local values, an exact value, a wildcard), in a
+        # random order, mostly under ALL -- every pattern has to find a community of its own; the communities carry the
+        # values of only some of the patterns
+        A = vals["as"][0] & 0xffff
+        L, M, N = [x & 0xffff for x in rng.sample(vals["la"] + [11, 12, 19], 3)]
+        cands = [("p", True, True, cat(lit("%d:" % A), ("grp", ("alt", [lit(str(L)), lit(str(L + 1))])))),
+                 ("p", True, True, cat(lit("%d:" % A), lit(str(M)[:1]), ("d",))),
+                 ("p", True, True, lit("%d:%d" % (A, N))),
+                 ("p", True, True, cat(lit("%d:" % A), rng.choice(WILD)))]
+        pats = [normalize(x) for x in rng.sample(cands, rng.choice([2, 2, 3]))]
+        opt = rng.choice([1, 1, 1, 0, 2])
+        comms = rng.sample([(A, L), (A, N), (A, int(str(M)[:1] + "5")), (A, 7)], rng.choice([1, 1, 2]))
     edits = []
     final = list(pats)
-    if rng.random() < 0.35:
+    if rng.random() < (0.35 if not directed else 0.15):
         k = rng.choice(["append", "append", "remove", "replace"])
         arg = [normalize(gen_pattern(rng, vals)) for _ in range(rng.choice([1, 2, 3]))]
         if k == "remove" and final and rng.random() < 0.7:
